@@ -489,6 +489,30 @@ ADDENDA = {
 for _p, _t in ADDENDA.items():
     CLAIMS[_p]['text'] = CLAIMS[_p]['text'].rstrip() + ' ' + _t
 
+# Round 3 additions (DESIGN.md 0.2.2)
+ADDENDA3 = {
+    'C01': ' Round 3: every path of the DisconnectError handler force-closes with the error; key schedule (shared with C02.R2).',
+    'C02': ' Round 3: zlib context / sync flush / whole payload inflated.',
+    'C03': ' Round 3: NEWKEYS / KEXINIT state guards (shared with C06.R3).',
+    'C04': ' Round 3: known-hosts file options first-value-wins (rows of C18.R1).',
+    'C05': ' Round 3: application verdicts awaited before use; a failed credential does not abandon the method while others remain; key/certificate options change only for a verified signed request.',
+    'C06': ' Round 3: converse of the strict-KEX sequence reset; replies clear the per-request auth handler.',
+    'C07': ' Round 3: no empty decoded chunk delivered, EOF result only with an empty buffer, redirect target installed/removed before the channel is resumed, re-scan after a resume.',
+    'C08': ' Round 3: no silent drop in the data handlers, inbound message x receive state table, _accept_data overrides charge what the peer sent, buffer emptiers return bytes to the pause accounting.',
+    'C09': ' Round 3: waiters created only past the liveness test, drain waiters re-evaluated after redirect readers go, close()/abort() table.',
+    'C10': ' Round 3: DISCONNECT table, SOCKS close ends the parse, copy-data overlap table.',
+    'C11': ' Round 3: key schedule incl. compute_key input order and the receive gate (shared with C02.R2 / C06.R1).',
+    'C12': ' Round 3: v3 open flags to v5/v6 disposition (64 combinations); copy-data advances by bytes read.',
+    'C13': " Round 3: SCP validator rejects '.'.", 'C14': ' Round 3: request bodies compared per protocol version incl. end of packet before v6; reply-type table; extra status fields by version; single-name replies.',
+    'C15': ' Round 3: EC scalar at curve length; PBKDF2 optional fields; certificate encoder tables sorted.',
+    'C16': ' Round 3: every certificate option consumes name + data; certificate rows of the trust tables; SSHSIG digest fed with what read() returned.',
+    'C17': ' Round 3: only X.509 certificates become known_hosts entries; bracket escaping through fnmatch; every entry for a key is tried.',
+    'C18': ' Round 3: `final` keyword recorded wherever it stands; percent tokens scanned in the raw value only.',
+    'C20': ' Round 3: inbound message x receive state table; SOCKS input buffer only consumed.',
+}
+for _p, _t in ADDENDA3.items():
+    CLAIMS[_p]['text'] = CLAIMS[_p]['text'].rstrip() + _t
+
 PENDING = 'check not built yet in this session (planned, see DESIGN.md section 5)'
 
 NOT_APPLICABLE = {
